@@ -37,7 +37,7 @@ for d in sorted(glob.glob('seeded/C*-*')):
     rows.append(f"| {name} | {summ} | {needs} | {'; '.join(cells) if cells else 'not run yet'}{(' — '+note) if note else ''} |")
 caught=sum(1 for r in rows if 'caught' in r and 'missed**' not in r)
 text="Each row is one change written by a fresh sub-agent that saw only the property text (never /verif), confirmed by me in a scratch worktree\n(`tools/seed_confirm.sh`: the repository's full suite passes with the patch, the author's demonstration fails with it and passes without it), stored under\n`seeded/<property>-<n>/` (patch.diff, demo/, meta.json, runs.jsonl) and then applied to /repo, checked (`tools/seed_run.sh`) and reverted.\n\n"
-text+=f"{len(rows)} changes, {caught} caught by the check of the property they target.\n\n"
+text+=f"{len(rows)} changes in two rounds, {caught} caught by the check of the property they target (after the strengthening described below the table).\n\n"
 text+="| change | what was changed | needs | outcome |\n|---|---|---|---|\n"+"\n".join(rows)+"\n"
 text+="""
 **First pass: 28 of 40 caught.**  What the twelve misses showed, and what was changed (each change was then re-run against the seeded change *and* against the unchanged tree at several seeds):
@@ -57,7 +57,32 @@ text+="""
 | C17-2 | profiling calls only stood in statement position | value positions (local, argument, parenthesised, condition, comparison) with 0-3 arguments returning false / nothing / several values (exposed a defect, repaired: `f() and nil` is false; and an open one: `nil` written in a multi-value tail position) |
 | C19-2 | the contradictory pair was rejected anyway, by the invalid JSON in the environment variable it named | pairs whose only possible rejection is the collision check (variable unset) |
 
-Second pass: 40 of 40 caught (see the outcome column; "missed before the check was strengthened" marks the twelve).  A change being caught by the check of *its* property is the minimum asked; several are also visible to neighbouring checks (the scope-visitor change of C01-2 / C09-2 to C01, C09, C16; the generator newline-counting change of C03-1 / C04-2 to C03 and C04; the string-form change of C02-2 / C14-1 to C02, C13, C14), which was not measured systematically.
+Second pass: 40 of 40 caught (see the outcome column; "missed before the check was strengthened" marks the twelve).
+
+**Second round** (`<property>-3`, `<property>-4`): forty more changes by fresh sub-agents that were additionally told which changes already
+existed for their property ("do not repeat them, look at other functions and other clauses").  First pass: 24 of 40 caught.  The sixteen misses:
+
+| missed | why the check was blind | strengthening |
+|---|---|---|
+| C02-3 | no statement started with `_` right after a statement ending in a digit | 650 statement pairs whose last / first tokens meet every combination of character classes (text flow, spans 80/0/1/9) |
+| C02-4 | no string operand held bytes >= 0x80 | UTF-8 text, non-UTF-8 bytes, a single high byte and non-ASCII text in an interpolated string among the special operands |
+| C04-3 | a removed statement never carried three or more comments on separate lines | layout option: documentation blocks of 3-5 line comments (some separated by blank lines) before statements |
+| C04-4 | bundling was left out of the line monitor although the property names it | bundle flow: an entry and 1-3 modules, each with its own marker range, bundled with retain_lines; within every source file all surviving markers must move by the same amount |
+| C05-3 | values of data files were only compared through a `name` field | eight data documents (negative / huge / fractional numbers in json, json5, yaml, toml; text) whose every value is compared |
+| C05-4 | at most nine modules per bundle | bundles of 60, 130 and 320 modules (accessor names beyond the 53 one-character ones) |
+| C06-3 | interpolated strings without values, and `%` in their text, were never generated | text-only interpolated strings and `%`, `%d`, `%s%%` in literal segments |
+| C06-4 | if-expression branch values were never if-expressions with a constant first condition | nested `(if false then .. elseif c then false else ..)` values |
+| C07-3 | no function holding an empty loop stood before a `continue` | such a function (while / repeat / numeric for / generic for with an empty body) is placed before the `continue` in a third of the loops |
+| C08-4 | the end-to-end fold check only covered closed expressions; no table constructor held a call | folding is also checked for expressions with opaque leaves in all nine environments; leaf `{f()}` added |
+| C09-4 | a global named like a generated name was always used *before* any local of that name | `do local a = 1 sink(a) end` / a parameter / a loop variable first, the global `a` afterwards |
+| C10-3 | the tolerance for the listed "failed require is not a recorded dependency" finding covered every error that followed any unloadable dependency | new operation `cut` (a module rewritten without its requires); the tolerance now needs the unloadable file itself to have been repaired |
+| C11-4 | which files are faulty was decided by darklua's own single-file run | a source that is not valid UTF-8 has to fail, whatever the single-file run says |
+| C12-4 | only single files were processed | batch cases: 2-7 files, some unparsable; every parsable file must be written or named by an error, every unparsable one named by an error, nothing aborts half way |
+| C15-3 | an alias defined in the configuration and in `.luaurc` was treated as undecided | the documented order (`.luaurc` first) is the model; the path mode, which does the opposite, became a listed finding |
+| C15-4 | no require string designated a directory above the requiring file | `..`, `../..`, `../.` from files inside `m/`, with every subset of `m.luau`, `m.lua`, `m/init.*` present |
+| C17-3 | preserved arguments were literals or calls, never effectful non-calls | `assert(h.f0, ext(), h[2])` on an object whose `__index` logs |
+
+After strengthening: 80 of 80 caught.  The same caveat as for every sampled monitor applies: a seeded change is caught when the workload holds the shape it needs; the two rounds show that about a third of independently chosen shapes were missing at first, so more remain.  A change being caught by the check of *its* property is the minimum asked; several are also visible to neighbouring checks (the scope-visitor change of C01-2 / C09-2 to C01, C09, C16; the generator newline-counting change of C03-1 / C04-2 to C03 and C04; the string-form change of C02-2 / C14-1 to C02, C13, C14), which was not measured systematically.
 """
 s=open('DESIGN.md').read()
 a=s.index('<!-- SEEDED:BEGIN -->')+len('<!-- SEEDED:BEGIN -->'); b=s.index('<!-- SEEDED:END -->')
